@@ -1,5 +1,6 @@
 import SciVerif.Tie.RunSem
 import SciVerif.Props.C16
+import SciVerif.Tie.Pins
 /-! Tie A obligations for C16 on the current source. -/
 namespace SciVerif.Tie
 open SciVerif.Generated SciVerif.Graph
@@ -31,7 +32,26 @@ theorem c16_on_source (wf : Wf) (hac : acyclic wf) (ts : List Nat) (hts : ∀ t 
     ∃ rs, runSet runSem wf (some ts) = some rs ∧ rs.Nodup ∧ ∀ q, q ∈ rs ↔ q ∈ ts ∨ ∃ t ∈ ts, Reach wf q t :=
   c16_runset_is_closure runSem generated_run_sem_good.1 generated_run_sem_good.2.2.2.2.2.2.1 generated_run_sem_good.2.2.2.2.2.2.2 wf hac ts hts
 
+
+-- BEGIN PINS (written by bin/mkpins; do not edit by hand)
+/-- the Go functions this property's model and obligations were written against have exactly the
+pinned skeletons (SHA-256 prefix of the atom list) -/
+theorem pinned_skeletons_c16 :
+    pinsOk
+    [("Scipipe.BaseProcess_Ready", "71e6e586b2c2ee4c"),
+     ("Scipipe.Workflow_Run", "7a0a30673bb14a0e"),
+     ("Scipipe.Workflow_RunTo", "7a0a61bbd770cc4c"),
+     ("Scipipe.Workflow_RunToProcs", "397593629fe3c425"),
+     ("Scipipe.Workflow_RunToRegex", "bee9945ee58084e1"),
+     ("Scipipe.Workflow_readyToRun", "378c8cdc8eb779a8"),
+     ("Scipipe.Workflow_reconnectDeadEndConnections", "9ed90a908028bbfc"),
+     ("Scipipe.Workflow_runProcs", "e319d71e11b8d924"),
+     ("Scipipe.mergeWFMaps", "c658dad781cfdc20"),
+     ("Scipipe.upstreamProcsForProc", "f9ed2dcd363d8677")] = true := by decide
+-- END PINS
+
 end SciVerif.Tie
+#print axioms SciVerif.Tie.pinned_skeletons_c16
 #print axioms SciVerif.Tie.generated_run_sem_good
 #print axioms SciVerif.Tie.generated_reconnect_shape
 #print axioms SciVerif.Tie.generated_ready_shape
